@@ -205,6 +205,27 @@ def step (st : State) (w : List String) : State × String :=
       else if k == "emfile" || k == "econnaborted" || k == "nettemp" then AcceptRes.err false true
       else AcceptRes.err false false
     (st, s!"admitted={boolStr (acceptLoop (rs ++ [.conn]) == 1)}")
+  | ["conncap", "new"] => (st, "ok")
+  | ["conncap", c, b] =>
+    match c.toNat?, b.toNat? with
+    | some c, some b =>
+      let z := (List.replicate b ZOp.enter).foldl (ZL.step c) {}
+      let z' := (List.replicate b ZOp.leave).foldl (ZL.step c) z
+      (st, s!"admitted={z.held} refused={b - z.held} after={z'.count} next={boolStr (z'.enter c).2}")
+    | _, _ => (st, "bad-op")
+  | ["fill", "new"] => (st, "ok")
+  | ["fill", s, e, a] =>
+    match s.toNat?, e.toNat?, a.toNat? with
+    | some s, some e, some a =>
+      match fillMore 4096 s (min e 4096) a with
+      | some (ns, r) => (st, s!"start={ns} read={r} err=-")
+      | none => (st, s!"start={s} read=0 err=short-buffer")
+    | _, _, _ => (st, "bad-op")
+  | ["dialer", "new"] => (st, "ok")
+  | ["dialer", n, id, _proto] =>
+    match n.toNat?, id.toNat? with
+    | some n, some id => (st, s!"index={dialerIndex n id}")
+    | _, _ => (st, "bad-op")
   | ["tcpclass", "new"] => (st, "ok")
   | ["tcpclass", l] =>
     match l.toNat? with
